@@ -662,26 +662,31 @@ package validate
 
 //@ func (*typeValidator).Validate
 //@   effects validation
+//@   ensures[C08] implies(!old(t.Options.recycleValidators), unchanged(all(t)))
 //@   requires[C06] jsonOrNum(data)
 //@   ensures[C04,C11] redeemed(t) == old(t.Options.recycleValidators)
 //@   ensures[C04,C06] result != nil && okResult(result)
 //@ func (*stringValidator).Validate
 //@   effects validation
+//@   ensures[C08] implies(!old(s.Options.recycleValidators), unchanged(all(s)))
 //@   ensures[C04,C11] redeemed(s) == old(s.Options.recycleValidators)
 //@   ensures[C04] result == nil || okResult(result)
 //@ func (*formatValidator).Validate
 //@   effects validation
+//@   ensures[C08] implies(!old(f.Options.recycleValidators), unchanged(all(f)))
 //@   maypanic
 //@   ensures[C04,C11] redeemed(f) == old(f.Options.recycleValidators)
 //@   ensures[C04,C06] result != nil && okResult(result)
 //@   on_panic ensures[C11] redeemed(f) == old(f.Options.recycleValidators)
 //@ func (*numberValidator).Validate
 //@   effects validation
+//@   ensures[C08] implies(!old(n.Options.recycleValidators), unchanged(all(n)))
 //@   requires[C06] knumeric(val)
 //@   ensures[C04,C11] redeemed(n) == old(n.Options.recycleValidators)
 //@   ensures[C04,C06] result != nil && okResult(result)
 //@ func (*basicCommonValidator).Validate
 //@   effects validation
+//@   ensures[C08] implies(!old(b.Options.recycleValidators), unchanged(all(b)))
 //@   ensures[C04,C11] redeemed(b) == old(b.Options.recycleValidators)
 //@   ensures[C04] res == nil || okResult(res)
 
@@ -767,6 +772,7 @@ package validate
 
 //@ func (*SchemaValidator).Validate
 //@   effects validation
+//@   ensures[C08] implies(s != nil && !old(s.Options.recycleValidators), unchanged(all(s)))
 //@   maypanic
 //@   loop 1 invariant kind != 22 && kind == kind(data)
 //@   loop 2 unroll
@@ -784,14 +790,15 @@ package validate
 //@ pred liveRes(res *Result) = res != nil && res != emptyResult && !redeemed(res) && fromPool(res) && wfRes(res)
 //@ func (*schemaSliceValidator).Validate
 //@   effects validation
+//@   ensures[C08] implies(!old(s.Options.recycleValidators), unchanged(all(s)))
 //@   maypanic
 //@   requires[C06] isJSON(data) && (data == nil || kind(data) == 23)
 //@   ensures[C04,C11] redeemed(s) == old(s.Options.recycleValidators)
 //@   ensures[C04,C06] result != nil && okResult(result)
 //@   on_panic ensures[C11] redeemed(s) == old(s.Options.recycleValidators)
-//@   loop 1 invariant 0 <= i && i <= size && !redeemed(s) && liveRes(result) && s.Items != nil && s.Items.Schema != nil && s.Options == old(s.Options)
-//@   loop 2 invariant 0 <= i && i <= itemsSize && s.Items != nil && itemsSize == len(s.Items.Schemas) && !redeemed(s) && liveRes(result) && s.Options == old(s.Options)
-//@   loop 3 invariant itemsSize <= i && !redeemed(s) && liveRes(result) && s.AdditionalItems != nil && s.AdditionalItems.Schema != nil && s.Options == old(s.Options)
+//@   loop 1 invariant 0 <= i && i <= size && !redeemed(s) && liveRes(result) && s.Items != nil && s.Items.Schema != nil && unchanged(all(s))
+//@   loop 2 invariant 0 <= i && i <= itemsSize && s.Items != nil && itemsSize == len(s.Items.Schemas) && !redeemed(s) && liveRes(result) && unchanged(all(s))
+//@   loop 3 invariant itemsSize <= i && !redeemed(s) && liveRes(result) && s.AdditionalItems != nil && s.AdditionalItems.Schema != nil && unchanged(all(s))
 
 //@ func (*schemaPropsValidator).redeemChildren
 //@   effects validation
@@ -800,6 +807,7 @@ package validate
 
 //@ func (*schemaPropsValidator).Validate
 //@   effects validation
+//@   ensures[C08] implies(!old(s.Options.recycleValidators), unchanged(all(s)) && unchanged(elems(s.anyOfValidators)) && unchanged(elems(s.allOfValidators)) && unchanged(elems(s.oneOfValidators)))
 //@   maypanic
 //@   requires[C06] jsonOrNum(data) && data != nil
 //@   requires[C06,C04] readyProps(s)
